@@ -452,6 +452,12 @@ func c12PartB(t *testing.T) {
 	for i, n := 0, verifh.N(2, 40); i < n; i++ {
 		progs = append(progs, prog{fmt.Sprintf("cyclic-%d", i), c12GenCyclicSource(rc), false, "cyclic"})
 	}
+	// cycles made only of pointers and interface wrappers, pointer chains, a pointer held by what it points to;
+	// the values are only moved around, never printed (own stream)
+	rq := verifh.Rand(1206)
+	for i, n := 0, verifh.N(8, 80); i < n; i++ {
+		progs = append(progs, prog{fmt.Sprintf("ptr-%d", i), c12GenPtrSource(rq), false, "ptr"})
+	}
 	// goroutines, channels, wait groups, mutexes (own stream)
 	rg := verifh.Rand(1205)
 	for i, n := 0, verifh.N(8, 120); i < n; i++ {
@@ -493,6 +499,10 @@ func c12PartB(t *testing.T) {
 			if plain.status == "hang" || plain.status == "crash" {
 				// the program does not terminate / kills the process even without diagnostics: not a C12 matter
 				stats.Inc("plain_" + plain.status + "_skipped")
+				stats.Inc("plain_" + plain.status + "_skipped_" + p.kind)
+				if os.Getenv("VERIF_C12_DEBUG") != "" {
+					fmt.Fprintln(os.Stderr, "PLAIN RUN", plain.errText, p.name, "\n"+p.src)
+				}
 				break
 			}
 			again, _ := run(p, c12Flags{c: captured}, "")
@@ -569,10 +579,13 @@ func c12PartB(t *testing.T) {
 		if p.kind == "cyclic" && c12HasCyclicStore(p.src) && !seen[p.src] {
 			stats.Inc("programs_with_self_containing_value")
 		}
+		if p.kind == "ptr" && strings.Contains(p.src, ":= &") && !seen[p.src] {
+			stats.Inc("programs_with_pointer_cycle_or_chain")
+		}
 		if p.kind == "go" && strings.Contains(p.src, "go ") && !seen[p.src] {
 			stats.Inc("programs_with_goroutines")
 		}
-		if (strings.Contains(p.src, "try {") || strings.Contains(p.src, "recover()") || p.test || p.kind == "cyclic" || p.kind == "go") && !seen[p.src] {
+		if (strings.Contains(p.src, "try {") || strings.Contains(p.src, "recover()") || p.test || p.kind == "cyclic" || p.kind == "ptr" || p.kind == "go") && !seen[p.src] {
 			seen[p.src] = true
 			stats.Inc("distinct_nontrivial")
 			stats.Sample(p.name)
